@@ -465,7 +465,39 @@ def strncmp_hook(exe, st, node, args):
 
 strncmp_hook.pure = True
 
-MATH_HOOKS = {'strncmp': strncmp_hook, 'strnlen': strnlen_hook, 'sqrt': sqrt_hook, 'sin': sin_hook, 'cos': cos_hook, 'fabs': fabs_hook, 'fmax': fmax_hook, 'fmin': fmin_hook, 'exp': exp_hook}
+def iszerobyte_hook(exe, st, node, args):
+    """mju_isZeroByte(vec, n) on a byte view of a typed array of doubles / ints: 1 iff every element of the n bytes is the
+    all-zero bit pattern (+0.0 for doubles).  Assumed contract of the engine utility (body: a byte loop, not verified here)."""
+    p, n = args
+    exe.assumed.add('mju_isZeroByte(vec, n) returns 1 exactly when the n bytes are zero, i.e. every covered element is +0.0 / 0 (assumed contract)')
+    exe._check_deref(p, st, node)
+    if p.obj is None or p.obj is RAW or p.path:
+        raise FrontEndError('mju_isZeroByte on a non-array pointer')
+    lt = exe.leaf_type(p.obj, p.path)
+    sz = exe.tu.sizeof(lt)
+    sem = exe.sem
+    if sem.int_mode == 'bv':
+        raise FrontEndError('mju_isZeroByte hook needs math mode')
+    exe.emit('%s/isZeroByte_whole_elements@%s' % (exe.fn_stack[-1], exe._loc(node)), n % sz == 0, st, kind='arith')
+    cnt = simp(n / sz)
+    lo = exe._ix(p.idx[-1])
+    if p.obj.length is not None:
+        ln = p.obj.length if not isinstance(p.obj.length, int) else sem.idx_const(p.obj.length)
+        exe.emit('%s/isZeroByte_in_bounds(%s)@%s' % (exe.fn_stack[-1], p.obj.name, exe._loc(node)), z3.Or(cnt <= 0, z3.And(lo >= 0, lo + cnt <= ln)), st, kind='bounds')
+    arr = st.array_term(p.obj, p.path)
+    k = z3.FreshConst(sem.idx_sort(), 'k')
+    if isinstance(lt, TFloat):
+        zero = (z3.Select(arr, k) == z3.FPVal(0.0, z3.Float64())) if sem.num_mode == 'fp' else (z3.Select(arr, k) == sem.fconst(0.0, lt))
+    else:
+        zero = z3.Select(arr, k) == 0
+    exe.nsym += 1
+    r = z3.Int('mju_isZeroByte()#%d' % exe.nsym)
+    st.assume(z3.Or(r == 0, r == 1))
+    st.assume((r == 1) == z3.ForAll([k], z3.Implies(z3.And(k >= lo, k < lo + cnt), zero)))
+    return r
+
+
+MATH_HOOKS = {'mju_isZeroByte': iszerobyte_hook, 'strncmp': strncmp_hook, 'strnlen': strnlen_hook, 'sqrt': sqrt_hook, 'sin': sin_hook, 'cos': cos_hook, 'fabs': fabs_hook, 'fmax': fmax_hook, 'fmin': fmin_hook, 'exp': exp_hook}
 
 HOOKS = {'memcpy': memcpy_hook, 'memmove': memcpy_hook, 'memset': memset_hook,
          '__builtin_memcpy': memcpy_hook, '__builtin_memset': memset_hook,
